@@ -259,8 +259,9 @@ func checkEdit(c EditCase) (in info, msg string) {
 	lpos, rpos, emitted := 0, 0, 0
 	var out []int
 	for k, e := range script {
+		l0, r0 := lpos, rpos // offsets before this edit
 		where := func(format string, args ...any) string {
-			return errf("script %v, edit #%d %v (lhs offset %d, rhs offset %d): ", script, k, e, lpos, rpos) + fmt.Sprintf(format, args...)
+			return errf("script %v, edit #%d %v (at lhs offset %d, rhs offset %d): ", script, k, e, l0, r0) + fmt.Sprintf(format, args...)
 		}
 		useX, useY := false, false
 		switch e.Op {
